@@ -198,12 +198,12 @@ def run_precomputed(case, opf=None):
     X_te = np.zeros((len(I_te), 1))
     opf.fit(X_tr, Y, I_tr)
     Wm = [[Wf[a][b] for b in I_tr] for a in I_tr]
-    err = check_forest(opf, Wm, list(Y))
-    if err:
-        return {"stage": "fit", "error": err, "props": ["C01"]}, opf
-    err = check_prototypes(opf, Wm, list(Y))
-    if err:
-        return {"stage": "fit", "error": err, "props": ["C02"]}, opf
+    # both oracles are evaluated: one defect often breaks the forest (C01) and the prototype clauses (C02) together,
+    # and each property's check must see its own oracle's verdict
+    e1, e2 = check_forest(opf, Wm, list(Y)), check_prototypes(opf, Wm, list(Y))
+    if e1 or e2:
+        return {"stage": "fit", "error": " | ".join(e for e in (e1, e2) if e),
+                "props": (["C01"] if e1 else []) + (["C02"] if e2 else [])}, opf
     if len(I_te):
         preds = opf.predict(X_te, I_te)
         WQ = [[Wf[a][b] for b in I_te] for a in I_tr]
@@ -225,12 +225,12 @@ def run_features(case, opf=None):
     opf.fit(X.copy(), Y.copy())
     n = len(X)
     Wm = [[float(fn(X[a].copy(), X[b].copy())) for b in range(n)] for a in range(n)]
-    err = check_forest(opf, Wm, list(Y))
-    if err:
-        return {"stage": "fit", "error": err, "props": ["C01"]}, opf
-    err = check_prototypes(opf, Wm, list(Y))
-    if err:
-        return {"stage": "fit", "error": err, "props": ["C02"]}, opf
+    # both oracles are evaluated: one defect often breaks the forest (C01) and the prototype clauses (C02) together,
+    # and each property's check must see its own oracle's verdict
+    e1, e2 = check_forest(opf, Wm, list(Y)), check_prototypes(opf, Wm, list(Y))
+    if e1 or e2:
+        return {"stage": "fit", "error": " | ".join(e for e in (e1, e2) if e),
+                "props": (["C01"] if e1 else []) + (["C02"] if e2 else [])}, opf
     if len(Q):
         preds = opf.predict(Q.copy())
         WQ = [[float(fn(X[a].copy(), Q[b].copy())) for b in range(len(Q))] for a in range(n)]
@@ -240,7 +240,7 @@ def run_features(case, opf=None):
     return None, opf
 
 
-def run_semi(case):
+def run_semi(case, opf=None):
     """C15: semi-supervised fit through pre-computed weights is not meaningful for the unlabeled part (their idx is
     positional), so the semi model is driven with features and a real metric"""
     from opfython.models.semi_supervised import SemiSupervisedOPF
@@ -250,7 +250,8 @@ def run_semi(case):
     Y = np.asarray(case["Y"], dtype=int)
     U = np.asarray(case["U"], dtype=float).reshape(-1, X.shape[1])
     fn = d.DISTANCES[case["metric"]]
-    opf = SemiSupervisedOPF(distance=case["metric"])
+    if opf is None or not isinstance(opf, SemiSupervisedOPF):
+        opf = SemiSupervisedOPF(distance=case["metric"])
     opf.fit(X.copy(), Y.copy(), U.copy())
     A = np.vstack([X, U]) if len(U) else X
     n, nl = len(A), len(X)
@@ -296,13 +297,21 @@ def run_semi(case):
         if list(sg.idx_nodes) != list(sup.subgraph.idx_nodes):
             return {"stage": "semi", "error": "empty unlabeled set: conquest order differs from supervised training",
                     "props": ["C15"]}, opf
+    Q = np.asarray(case.get("Q") or [], dtype=float).reshape(-1, X.shape[1])
+    if len(Q):
+        # prediction with the semi-supervised forest (the inherited predict): exhaustive arg-min over ALL nodes
+        preds = opf.predict(Q.copy())
+        WQ = [[float(fn(A[a].copy(), Q[b].copy())) for b in range(len(Q))] for a in range(n)]
+        err = check_predictions(opf, preds, WQ)
+        if err:
+            return {"stage": "predict", "error": err, "props": ["C03", "C15"]}, opf
     return None, opf
 
 
 def run_case(case, opf=None):
     try:
         if case["kind"] == "semi":
-            return run_semi(case)
+            return run_semi(case, opf)
         if case["kind"] == "precomputed":
             return run_precomputed(case, opf)
         if case["kind"] == "features":
@@ -375,7 +384,13 @@ def gen_features(rng):
         Q = [[round(rng.uniform(0, 5), 3) for _ in range(dim)] for _ in range(rng.randint(0, 3))]
     if Q and rng.random() < 0.3:
         Q[0] = list(X[rng.randrange(n)])
-    return {"kind": "features", "X": X, "Y": gen_labels(rng, n), "Q": Q,
+    # the statement holds at every scale of the data: very small and large magnitudes, where absolute or relative
+    # tolerances (if any crept in) would bite
+    sc = rng.choice([1.0, 1.0, 1.0, 1e-5, 1e3])
+    if sc != 1.0:
+        X = [[v * sc for v in row] for row in X]
+        Q = [[v * sc for v in row] for row in Q]
+    return {"kind": "features", "X": X, "Y": gen_labels(rng, n), "Q": Q, "scale": sc,
             "metric": rng.choice(["euclidean", "manhattan", "squared_euclidean", "log_squared_euclidean", "chebyshev"])}
 
 
@@ -387,7 +402,8 @@ def gen_semi(rng):
         U = [[float(rng.randint(0, 2)) for _ in range(dim)] for _ in range(nu)]
     else:
         U = [[round(rng.uniform(0, 5), 3) for _ in range(dim)] for _ in range(nu)]
-    return {"kind": "semi", "X": c["X"], "Y": c["Y"], "U": U, "metric": c["metric"]}
+    U = [[v * c["scale"] for v in row] for row in U]
+    return {"kind": "semi", "X": c["X"], "Y": c["Y"], "U": U, "metric": c["metric"], "Q": c["Q"]}
 
 
 def gen_semi_bridge(rng):
@@ -430,7 +446,7 @@ def explore(tier="quick", prop="C01"):
     stats = {"evaluations": 0, "distinct_nontrivial": 0, "samples": []}
     seen = set()
     failure = None
-    n_cases = 260 if tier == "quick" else 6000
+    n_cases = 640 if tier == "quick" else 8000
     try:
         # exhaustive tiny scope: n = 3, weights in {0,1,2}, all labelings with 2 classes
         tiny = []
@@ -450,12 +466,31 @@ def explore(tier="quick", prop="C01"):
             elif r < 7:
                 cases.append(gen_features(rng))
             else:
-                a = gen_precomputed(rng, "wide")
-                b = gen_precomputed(rng, "distinct")
-                # same object: fit, predict, re-fit on different data of the SAME size, predict
-                n = len(a["Y"])
-                while len(b["Y"]) != n:
-                    b = gen_precomputed(rng, "distinct")
+                # one model OBJECT used repeatedly: fit, predict, re-fit on different data (of the same size two times
+                # out of three), predict ... - with pre-computed weights, with a metric, and semi-supervised
+                flavour = (i // 8) % 3 if prop != "C15" else 2
+                if flavour == 0:
+                    a, b = gen_precomputed(rng, "wide"), gen_precomputed(rng, "distinct")
+                    while len(b["Y"]) != len(a["Y"]):
+                        b = gen_precomputed(rng, "distinct")
+                elif flavour == 1:
+                    a, b = gen_features(rng), gen_features(rng)
+                    tries = 0
+                    while (len(b["Y"]) != len(a["Y"]) or len(b["X"][0]) != len(a["X"][0])) and tries < 200:
+                        b = gen_features(rng)
+                        tries += 1
+                    b["metric"] = a["metric"]
+                else:
+                    a, b = gen_semi(rng), gen_semi(rng)
+                    tries = 0
+                    while (len(b["X"][0]) != len(a["X"][0]) or
+                           (i % 3 and len(b["Y"]) + len(b["U"]) != len(a["Y"]) + len(a["U"]))) and tries < 300:
+                        b = gen_semi(rng)
+                        tries += 1
+                    b["metric"] = a["metric"]
+                    for cs in (a, b):
+                        if not cs["Q"]:
+                            cs["Q"] = [list(cs["X"][0]), [v + 0.5 for v in cs["X"][-1]]]
                 cases.append({"kind": "history", "steps": [a, b, a]})
         for case in cases:
             res, _ = run_case(case)
@@ -483,7 +518,8 @@ def explore(tier="quick", prop="C01"):
     stats["rule"] = ("real SupervisedOPF.fit/predict on generated cases: n<=6 training samples, pre-computed symmetric "
                      "weight matrices (tie alphabets {0,1,2},{1,2,3}, wide, all-distinct) with shuffled index arrays, "
                      "lattice/random features with 5 metrics, queries incl. copies of training samples, and "
-                     "fit/predict/re-fit histories on one object; oracles: brute-force minimax path costs, all spanning "
+                     "fit/predict/re-fit histories on one model object (pre-computed, metric and semi-supervised "
+                     "flavours; same and different sizes); oracles: brute-force minimax path costs, all spanning "
                      "trees (Pruefer) for the MST-boundary prototype set, exhaustive arg-min for predictions; "
                      "non-trivial = distinct case with >= 3 training samples or a history")
     return stats, failure
